@@ -136,3 +136,27 @@ Lemma ex_straddle_values :
   /\ map (fun t => lx_flag flag_names [Some (SelStr "data_lost")] ex_straddle all_true [t; 1; 0]) [0;1;2;3;4;5]
      = [false; true; true; false; false; false].
 Proof. vm_compute. repeat split; reflexivity. Qed.
+
+(* ---------- the flags indexer under concurrent first reads ---------- *)
+(* d.flags is a DaskLazyIndexer built on the raw-flags indexer with the transform chain [bitwise_and (unless the mask is
+   all ones); view_as_bool]; its graph is built lazily, on first use, by DaskLazyIndexer.dataset - the site `site_dask`
+   of C20's Model/LazyInit.v, REGENERATED from katdal/lazy_indexer.py on every run.  S = what the raw-flags indexer
+   delivers for a sample, V = what d.flags delivers, f = the transform chain. *)
+From KV Require Model.LazyInit Proofs.LazyInitP.
+
+Lemma flags_first_reads_safe (h : list (option selarg)) (raw : Z) (schedule : list nat) : 0 <= raw < 256 ->
+  let c := LazyInit.exec Z bool (fun r => v4_flag r (hist_mask flag_names h)) LazyInit.site_dask
+                         (LazyInit.mkSh None (Some raw) 0) schedule in
+  (forall t, LazyInit.c_th c t <> LazyInit.Failed) /\
+  (forall t lo, LazyInit.c_th c t = LazyInit.Done lo ->
+     LazyInit.lres lo = Some (spec_flag_bool raw (spec_hist_mask h))) /\
+  (LazyInit.c_lock c = None -> LazyInit.c_hist c <> [] -> LazyInit.ncomp (LazyInit.c_sh c) = 1%nat).
+Proof.
+  intros R c.
+  destruct (LazyInitP.dask_dataset_safe Z bool (fun r => v4_flag r (hist_mask flag_names h)) raw schedule) as (A & B & C).
+  split; [exact A|]. split; [|exact C].
+  intros t lo D. rewrite (B t lo D). f_equal.
+  rewrite v4_flag_is_flag_bool by (auto using hist_mask_range).
+  rewrite flag_bool_spec by (auto using hist_mask_range).
+  rewrite hist_mask_spec. reflexivity.
+Qed.
